@@ -13,11 +13,35 @@ def count_calls(text):
         n[0] += 1
         return orig(self, instring, loc, doActions, callPreParse)
     pp.ParserElement._parseNoCache = counting
+    direct = pp.ParserElement._parse is orig          # memoisation is off: matchers are entered without going through the cache
+    if direct:
+        pp.ParserElement._parse = counting
+    budget = [BUDGET]
+
+    def counting_budget(self, instring, loc, doActions=True, callPreParse=True):
+        n[0] += 1
+        if n[0] > budget[0]:
+            raise OverBudget()
+        return orig(self, instring, loc, doActions, callPreParse)
+    pp.ParserElement._parseNoCache = counting_budget
+    if direct:
+        pp.ParserElement._parse = counting_budget
     try:
         ip.Module.parseString(text)
+    except OverBudget:
+        pass
     finally:
         pp.ParserElement._parseNoCache = orig
+        if direct:
+            pp.ParserElement._parse = orig
     return n[0]
+
+
+BUDGET = 3000000       # matcher invocations after which a parse is abandoned (far above every limit below)
+
+
+class OverBudget(BaseException):
+    pass
 
 
 def ns_family(d, comments=0):
@@ -38,6 +62,21 @@ def size_family(n):
 
 def replay(obj):
     print('replay:', obj.get('what'))
+    if 'limit' not in obj:
+        import pyparsing as pp
+        import gtwrap.interface_parser as ip
+        try:
+            ip.Module.parseString(obj.get('input', 'class Broken { Broken(;'))
+        except Exception:
+            pass
+        off = not pp.ParserElement._packratEnabled
+        print('observed: memoisation %s after a rejected input' % ('OFF' if off else 'on'))
+        return 1 if off else 0
+    import gtwrap.interface_parser as ip
+    try:                                    # same history as the check: a rejected input earlier in the process
+        ip.Module.parseString('class Broken { Broken(;')
+    except Exception:
+        pass
     c = count_calls(obj['input'])
     print('observed: %d matcher invocations (limit %s)' % (c, obj.get('limit')))
     return 1 if c > obj.get('limit', 0) else 0
@@ -60,6 +99,11 @@ def run(rep, args):
         ip.Module.parseString('class Broken { Broken(;')
     except Exception:
         pass
+    ok = bool(pp.ParserElement._packratEnabled) and pp.ParserElement._parse is not pp.ParserElement._parseNoCache
+    rep.structural.append(('packrat memoisation still enabled after a rejected input', ok, ''))
+    if not ok:
+        rep.violation('struct:packrat-after-failure', 'memoisation is switched off once an input has been rejected: every later parse in the process is exponential in nesting depth',
+                      dict(obligation='packrat stays enabled', input='class Broken { Broken(;'), concrete=False)
     for name, fam in fams:
         prev = None
         for d in depths:
@@ -67,7 +111,7 @@ def run(rep, args):
             c = count_calls(text)
             rep.bounded['evaluations'] += 1
             rep.bounded['distinct'].add((name, d))
-            limit = 4000 * (d + 1) * (d + 1)          # generous polynomial envelope (measured on the pinned tree: < 400*(d+1))
+            limit = 4000 * (d + 1) * (d + 1)          # generous polynomial envelope (measured on the pinned tree: about 1450*(d+1))
             if c > limit:
                 rep.violation('cost:%s' % name, '%s at depth %d needs %d matcher invocations (> %d)' % (name, d, c, limit),
                               dict(kind='cost', input=text, limit=limit, family=name, depth=d))
